@@ -1,4 +1,9 @@
 import VermouthModel.C03
+import VermouthModel.C03_Text
+import VermouthModel.C03_Top
+import VermouthModel.C03_Sort
+import Generated.C16Layout
+import Generated.C02Tables
 open Proto C03
 
 /- request:  sys <dedup 0|1> <exact 0|1> [ mol* ]
@@ -76,6 +81,89 @@ def encSysOut (o : SysOut) : String :=
     ++ " includes " ++ encNats o.includes ++ " src " ++ encPairs o.src
     ++ " pdb " ++ encRecs o.pdb ++ " gro " ++ encRecs o.gro ++ " itp " ++ encRecs o.itp
 
+/-! ### text level (C03_Text / C03_Top): request
+
+   text <dedup 0|1> <molname> <conect 0|1> [ tmol* ] [ header-line* ] [ define* ] [ [cite*]* ]
+        [ param-key* ] <itp_paths: - | [ [key path]* ]> <names: - | [ name* ]>
+   tmol  := [ mol [ deco* ] shell ]
+   deco  := [ charge mass x y z occ temp ]        (strings; ints in 0.001 nm; occ/temp '-' or int/100)
+   shell := [ nrexcl [ [name value]* ] [ [name [ inter* ]]* ] [ [sect [line*]]* ] [ [sect [line*]]* ] ]
+   inter := [ [key*] [param*] ifdef ifndef group comment ]
+   response: ok <names> params [ file* ] itps [ [stem idx text]* ] top xTEXT pdb (ok [ line* ] | err e) gro [ line* ]
+           | err <e> pdb ... gro ... -/
+
+def decoOf (t : Tok) : Option Deco := do
+  match ← t.list? with
+  | [c, m, x, y, z, o, tf] =>
+    pure { charge := ← c.str?, mass := ← m.str?, x := ← x.int?, y := ← y.int?, z := ← z.int?,
+           occ := ← o.optInt?, temp := ← tf.optInt? }
+  | _ => none
+
+def c02InterOf (t : Tok) : Option C02.Inter := do
+  match ← t.list? with
+  | [as, ps, d, nd, g, c] =>
+    pure { atoms := ← ints? as, params := ← strs? ps, ifdef := ← d.optStr?, ifndef := ← nd.optStr?,
+           group := ← g.optStr?, comment := ← c.optStr? }
+  | _ => none
+
+def namedOf {α} (f : Tok → Option α) (t : Tok) : Option (String × α) := do
+  match ← t.list? with
+  | [n, v] => pure (← n.str?, ← f v)
+  | _ => none
+
+def shellOf (t : Tok) : Option C02.Mol := do
+  match ← t.list? with
+  | [nr, defs, inters, pre, post] =>
+    pure { moltype := "", nrexcl := ← nr.str?, header := [],
+           defines := ← (← defs.list?).mapM (namedOf Tok.str?), atoms := [],
+           inters := ← (← inters.list?).mapM (namedOf (fun v => do (← v.list?).mapM c02InterOf)),
+           pre := ← (← pre.list?).mapM (namedOf strs?), post := ← (← post.list?).mapM (namedOf strs?) }
+  | _ => none
+
+def tmolOf (t : Tok) : Option TMol := do
+  match ← t.list? with
+  | [m, ds, sh] => pure { mol := ← molOf m, deco := ← (← ds.list?).mapM decoOf, shell := ← shellOf sh }
+  | _ => none
+
+def charsOf (t : Tok) : Option (List (List Char)) := do
+  pure ((← strs? t).map String.toList)
+
+def encChars (s : List Char) : String := encStr (String.ofList s)
+def encLines (ls : List (List Char)) : String := encList (ls.map encChars)
+
+def encC02Err : C02.Err → String
+  | .valueerror => "valueerror" | .keyerror => "keyerror" | .indexerror => "indexerror"
+
+def encTopErr : TopErr → String
+  | .valueerror => "valueerror" | .indexerror => "indexerror" | .typeerror => "typeerror"
+  | .keyerror => "keyerror" | .itp e => "itp-" ++ encC02Err e
+
+def encTopParsed (p : TopParsed) : String :=
+  encList [encList (p.defines.map encLines), encLines p.includes,
+           encList (p.molecules.map fun g => encList [encChars g.1, encNat g.2])]
+
+def textOp (dedup : Bool) (molname : String) (conect : Bool) (sys : List TMol) (header defines : List (List Char))
+    (cites : List (List (List Char))) (params : List String) (paths : Option (List (String × String)))
+    (given : Option (List String)) : String :=
+  let names : List String := match given with
+    | some ns => ns
+    | none => (nameMolTypes (shareMolType npClose) dedup (sys.map (·.mol))).map (molName molname)
+  let inp : TopIn := { sys := sys, names := names, cites := cites, header := header, defines := defines,
+                       params := params, itpPaths := paths }
+  let topPart := match writeTopology inp with
+    | .error e => "err " ++ encTopErr e
+    | .ok o =>
+      let rt := match parseTop o.top with
+        | .ok p => encTopParsed p
+        | .error _ => "perr"
+      "ok " ++ encList (names.map encStr) ++ " params " ++ encList (o.paramFiles.map encStr)
+        ++ " itps " ++ encList (o.itps.map fun (n, i, _, text) => encList [encStr n, encNat i, encStr text])
+        ++ " top " ++ encChars o.top ++ " parsed " ++ rt
+  let pdbPart := match pdbLines C16.Layout.pdb conect sys with
+    | .ok ls => "ok " ++ encLines ls
+    | .error e => "err " ++ e.toString
+  topPart ++ " pdb " ++ pdbPart ++ " gro " ++ encLines (groLines C16.Layout.gro sys)
+
 def handle (_ : Unit) (toks : List Tok) : Unit × String :=
   let r : Option String :=
     match toks with
@@ -91,6 +179,20 @@ def handle (_ : Unit) (toks : List Tok) : Unit × String :=
         let dedup := (← d.nat?) != 0
         let syss ← (← ss.list?).mapM (fun t => do (← t.list?).mapM molOf)
         pure (" | ".intercalate ((historyOut npClose dedup syss).map encSysOut))
+    | [Tok.str "text", d, mn, c, ms, hd, defs, cs, ps, paths, given] => do
+        let dedup := (← d.nat?) != 0
+        let conect := (← c.nat?) != 0
+        let sys ← (← ms.list?).mapM tmolOf
+        let cites ← (← cs.list?).mapM charsOf
+        let pathsV ← match paths with
+          | Tok.none => some none
+          | t => do
+              let l ← (← t.list?).mapM (namedOf Tok.str?)
+              pure (some l)
+        let givenV ← match given with
+          | Tok.none => some none
+          | t => do pure (some (← strs? t))
+        pure (textOp dedup (← mn.str?) conect sys (← charsOf hd) (← charsOf defs) cites (← strs? ps) pathsV givenV)
     | [Tok.str "sorted", ns] => do
         let nodes ← (← ns.list?).mapM atomOf
         pure (encList ((sortedNodes nodes).map fun a => encInt a.key))
